@@ -15,7 +15,6 @@ open Verif.Props.C04B
 #print axioms specificity_preserved
 #print axioms selector_equiv_html
 #print axioms selector_equiv_xml_counterexample
-#print axioms selector_equiv_counterexample
 #print axioms attr_ident_separated
 #print axioms attr_unquote_plain
 #print axioms important_preserved
